@@ -128,7 +128,12 @@ def IFF(a, b):
 def EQ(a, b, tol=1e-9):
     """numeric equality: exact in the solver, tolerance `tol` (relative) on floats"""
     if _issym(a, b):
-        return SB(pysym.lift(a) == pysym.lift(b))
+        # expand the difference into a sum of monomials (uninterpreted applications are atoms): an identity that
+        # holds by polynomial arithmetic alone disappears here and the solver only sees what is left
+        d = z3.simplify(pysym.lift(a) - pysym.lift(b), som=True)
+        if z3.is_rational_value(d):
+            return PROVED if d.as_fraction() == 0 else False
+        return SB(d == 0)
     a, b = float(a), float(b)
     if a != a or b != b:                      # NaN is never an acceptable result
         return False
@@ -153,6 +158,18 @@ def ITE(c, a, b):
     if _issym(c, a, b):
         return SR(z3.If(_z(c), pysym.lift(a), pysym.lift(b)))
     return a if bool(c) else b
+
+
+class _Proved:
+    """an equality between symbolic terms that z3's normaliser reduced to 0 == 0 (counted as a discharged obligation)"""
+    def __bool__(self):
+        return True
+
+    def __repr__(self):
+        return 'PROVED'
+
+
+PROVED = _Proved()
 
 
 def TRUE():
@@ -186,6 +203,18 @@ class Raised:
 
 
 # ---------------------------------------------------------------- driver
+def _lemmas(terms):
+    """true instances of trigonometric / power lemmas for the uninterpreted applications in `terms`"""
+    from . import eqsmt
+    txt = ' '.join(t.sexpr()[:20000] for t in terms[:50])
+    if not any(k in txt for k in ('(sin ', '(cos ', '(pow ', '(sqrt_ ')):
+        return []
+    try:
+        return eqsmt.trig_axioms(list(terms))
+    except Exception:
+        return []
+
+
 def run(hname, fn, timeout_ms=10000, max_paths=4000, region=None, expect_exc=(), engine_timeout_ms=5000,
         twin=True, describe=None, known_regions=None):
     """
@@ -217,12 +246,16 @@ def run(hname, fn, timeout_ms=10000, max_paths=4000, region=None, expect_exc=(),
             for item in claims or []:
                 cname, claim = item[0], item[1]
                 reached.add(cname)
+                if claim is PROVED:
+                    res.append(dict(harness=hname, name=f'{cname} @path{npaths} (by normalisation)', status='unsat', secs=0.0))
+                    continue
                 if claim is True or (isinstance(claim, (bool, np.bool_)) and claim):
                     continue
                 pending.append((cname, _z(claim)))
+            lem = _lemmas([c for _, c in pending] + path.cond()) if pending else []
             if len(pending) > 1:
                 # one query for the conjunction; only if it is not proved are the claims decided one by one
-                st, mdl, dt = pysym.decide(path.cond(), z3.And(*[c for _, c in pending]), timeout_ms)
+                st, mdl, dt = pysym.decide(path.cond() + lem, z3.And(*[c for _, c in pending]), timeout_ms)
                 if st == 'unsat':
                     for k, (cname, _) in enumerate(pending):
                         res.append(dict(harness=hname, name=f'{cname} @path{npaths}', status='unsat',
@@ -231,7 +264,7 @@ def run(hname, fn, timeout_ms=10000, max_paths=4000, region=None, expect_exc=(),
             for cname, zc in pending:
                 excl = []
                 for _round in range(4):
-                    st, mdl, dt = pysym.decide(path.cond() + excl, zc, timeout_ms)
+                    st, mdl, dt = pysym.decide(path.cond() + lem + excl, zc, timeout_ms)
                     again = False
                     if st == 'unsat':
                         res.append(dict(harness=hname, name=f'{cname} @path{npaths}' + (' outside known regions' if excl else ''),
@@ -255,7 +288,25 @@ def run(hname, fn, timeout_ms=10000, max_paths=4000, region=None, expect_exc=(),
                             res.append(dict(harness=hname, name=f'{cname} @path{npaths}', status='sat-not-reproduced', secs=dt,
                                             detail=info))
                     else:
-                        res.append(dict(harness=hname, name=f'{cname} @path{npaths}', status='unknown', secs=dt))
+                        # solver gave up on the full query.  Ask for a candidate from the RELAXED query (definitions of
+                        # reciprocals / lemma instances dropped: a weaker pre-condition), and replay it on the real code:
+                        # only a reproduced counterexample is reported, otherwise the obligation stays `unknown`.
+                        relaxed = [c for c in path.cond() if 'recip' not in c.sexpr()[:100000]]
+                        st2, mdl2, dt2 = pysym.decide(relaxed + excl, zc, min(timeout_ms, 20000))
+                        done = False
+                        if st2 == 'sat':
+                            ok, info = _replay(fn, mdl2, cname)
+                            if ok:
+                                rg = region(info['inputs'], cname) if region else cname
+                                res.append(dict(harness=hname, name=f'{cname} @path{npaths}', status='sat-replayed', secs=dt + dt2))
+                                res.append(dict(kind='violation', harness=hname, region=rg,
+                                                desc=(describe(info['inputs'], cname) if describe else
+                                                      f'{hname}: claim "{cname}" is false on the real code for inputs {info["inputs"]}'),
+                                                replay=dict(harness=hname, claim=cname, inputs=info['inputs'],
+                                                            detail='candidate from the relaxed query, confirmed by replay')))
+                                done = True
+                        if not done:
+                            res.append(dict(harness=hname, name=f'{cname} @path{npaths}', status='unknown', secs=dt + dt2))
                     if not again:
                         break
     except pysym.Abort as e:
